@@ -639,13 +639,14 @@ Lemma no_activity_after_end s e s' p :
   \/ r_loopkill (run_ s (p_owner (pay s' p))) = true.
 Proof.
   intros H Ha Hc.
-  assert (G : forall ri f, may_act ri f = true \/ may_start ri f = true \/ may_clean ri f = true ->
+  assert (G : forall ri f, coroutine f = true ->
+              may_act ri f = true \/ may_start ri f = true \/ may_clean ri f = true ->
               phase_ended (r_phase ri) = false \/ r_loopkill ri = true).
-  { intros ri f. unfold may_act, may_start, may_clean, orphaned_trio.
+  { intros ri f Hf. unfold may_act, may_start, may_clean, orphaned_trio. rewrite Hf.
     destruct (r_phase ri); cbn; destruct (r_loopkill ri); cbn; auto; intros [X|[X|X]]; discriminate. }
   destruct e; cbn in Ha; try discriminate Ha; injection Ha as ->.
   - destruct (inv_Start_pay _ _ _ _ _ _ _ _ H) as [_ [_ [_ [r [Hl [_ [_ [_ Hp]]]]]]]].
-    rewrite Hp, upd_same. simp_state. eapply G; eauto.
+    rewrite Hp, upd_same in *. simp_state. eapply (G _ _ Hc). right. left. exact Hl.
   - step_inv H. apply andb_prop in E0. destruct E0 as [_ E0]. rewrite Hc in E0. cbn in E0. eapply G; eauto.
   - step_inv H; simp_state. rewrite Hc in E1. cbn in E1. apply orb_false_elim in E1. destruct E1 as [_ E1].
     apply negb_false_iff in E1. eapply G; eauto.
